@@ -56,8 +56,48 @@ def load_library():
                    if n.startswith("conda_content_trust.") and m is not None and getattr(m, "__file__", None)
                    and os.path.realpath(m.__file__).startswith(lib.dir)]
     _snapshot_state(lib)
+    lib.int_constants = _harvest_int_constants(lib)
     _LIB = lib
     return lib
+
+
+def _harvest_int_constants(lib):
+    """Integer literals of the code under test (module / class attributes and the constants of every function's code object,
+    constant-folded products included): block sizes, caps, cache sizes.  The generators aim sizes and counts at them and their
+    neighbours, the way a fuzzer uses a dictionary of comparison operands.  Nothing in the library is changed."""
+    import types
+    out, seen = set(), set()
+    lo, hi = 2, 64 * 1024 * 1024
+
+    def code(c):
+        if c in seen:
+            return
+        seen.add(c)
+        for k in c.co_consts:
+            if type(k) is int and lo <= k <= hi:
+                out.add(k)
+            elif isinstance(k, types.CodeType):
+                code(k)
+            elif isinstance(k, (tuple, frozenset)):
+                for x in k:
+                    if type(x) is int and lo <= x <= hi:
+                        out.add(x)
+
+    def visit(ns, modname):
+        for v in list(ns.values()):
+            if type(v) is int and lo <= v <= hi:
+                out.add(v)
+            f = getattr(v, "__code__", None) or getattr(getattr(v, "__func__", None), "__code__", None)
+            if isinstance(f, types.CodeType) and getattr(v, "__module__", modname) == modname:
+                code(f)
+                for d in (getattr(v, "__defaults__", None) or ()):
+                    if type(d) is int and lo <= d <= hi:
+                        out.add(d)
+            if isinstance(v, type) and getattr(v, "__module__", None) == modname:
+                visit(dict(vars(v)), modname)
+    for mod in lib.modules:
+        visit(dict(vars(mod)), mod.__name__)
+    return sorted(out)
 
 
 _BASE = {}
@@ -282,6 +322,28 @@ class _Watchdog:
         return False
 
 
+def _carries_redos(v, budget=None):
+    """Does the value (looked at down to a few hundred nodes) hold one of gen.REDOS?"""
+    import gen as _gen
+    rs = getattr(_gen, "_REDOS_SET", None)
+    if rs is None:
+        rs = _gen._REDOS_SET = set(_gen.REDOS)
+    budget = budget if budget is not None else [400]
+    stack = [v]
+    while stack and budget[0] > 0:
+        x = stack.pop()
+        budget[0] -= 1
+        if type(x) is str:
+            if x in rs:
+                return x
+        elif isinstance(x, dict):
+            stack.extend(x.keys())
+            stack.extend(x.values())
+        elif isinstance(x, (list, tuple)):
+            stack.extend(x)
+    return None
+
+
 # calls whose outcome legitimately depends on things a forked copy does not share (real sub-processes, descriptors)
 _NO_HISTORY_CHECK = {"sign_root_metadata_via_gpg", "sign_root_metadata_dict_via_gpg", "sign_via_gpg", "fetch_keyval_from_gpg"}
 
@@ -305,6 +367,64 @@ class LibCalls:
     def fn(self, name):
         mod, k = self.table[name]
         return getattr(mod, k)  # looked up at call time (patches are honoured)
+
+    def terminates(self, name, args, kw, timeout=25.0):
+        """Does the call come back at all?  Made by a forked copy of this process which the parent kills after `timeout` seconds of wall
+        clock - the only way to stop a call that is stuck inside C code (a backtracking pattern match) where no Python-level alarm is
+        delivered.  Used for calls whose arguments carry strings built to make pattern matchers explode."""
+        import os as _os
+        import time as _time
+        try:
+            pid = _os.fork()
+        except (OSError, AttributeError):
+            return True
+        if pid == 0:
+            try:
+                import signal as _sg
+                _sg.alarm(0)
+                f = self.fn(name)
+                with self.out:
+                    try:
+                        f(*args, **kw)
+                    except BaseException:  # noqa: BLE001
+                        pass
+            finally:
+                _os._exit(0)
+        t0 = _time.monotonic()
+        while True:
+            done, _ = _os.waitpid(pid, _os.WNOHANG)
+            if done:
+                return True
+            if _time.monotonic() - t0 > timeout:
+                try:
+                    _os.kill(pid, 9)
+                except OSError:
+                    pass
+                _os.waitpid(pid, 0)
+                return False
+            _time.sleep(0.02)
+
+    def _preflight(self, name, args, kw):
+        """True if the call may proceed in this process."""
+        if getattr(self.run, "tier", "quick") != "thorough" and not os.environ.get("VERIF_PREFLIGHT"):
+            return True                  # thorough tier only (a fork per distinct call is too dear for the quick tier)
+        hit = _carries_redos((args, kw))
+        if not hit:
+            return True
+        seen = self.__dict__.setdefault("_preflighted", set())
+        try:
+            key = (name, hit, hash(repr((args, kw))[:20000]))
+        except Exception:  # noqa: BLE001
+            key = (name, hit, self.run.libcalls)
+        if key in seen:
+            return True                  # this function has already come back from exactly these arguments in this run
+        seen.add(key)
+        self.run.probe("preflight_for_pathological_string")
+        if self.terminates(name, args, kw):
+            return True
+        self.run.violate(("C13",), "did-not-terminate", "%s did not return within 25 s of wall clock on an argument carrying a string built to make "
+                         "backtracking pattern matchers explode" % name, "did-not-terminate:" + name)
+        return False
 
     def fresh_outcome(self, name, args, kw):
         """(ok, class name) of the same call made by a forked copy of this process whose library state has been put back to what it
@@ -361,6 +481,8 @@ class LibCalls:
         run = self.run
         run.libcalls += 1
         f = self.fn(name)
+        if not self._preflight(name, args, kw):
+            return Outcome(False, exc=RuntimeError("timeout"))
         if getattr(run, "hist_check", False):
             pre = self.fresh_outcome(name, args, kw)     # evaluated first: the parent's own call may change its arguments
         else:
@@ -445,6 +567,8 @@ class LibCalls:
         returned, not judged."""
         self.run.libcalls += 1
         f = self.fn(name)
+        if name not in _NO_HISTORY_CHECK and not self._preflight(name, args, kw):
+            return Outcome(False, exc=RuntimeError("timeout"))
         pre = self.fresh_outcome(name, args, kw) if getattr(self.run, "hist_check", False) and name not in _NO_HISTORY_CHECK else None
         import warnings as _w
         with self.out, _w.catch_warnings():
@@ -907,12 +1031,22 @@ class SimFS:
             f = fs.fds.get(fd)
             return real["ftruncate"](fd, n) if f is None else f.truncate(n)
 
+        def sim_fstat(fd):
+            f = fs.fds.get(fd)
+            if f is None:
+                return real["fstat"](fd)
+            import stat as _stat
+            m = fs.mtime.get(f.path, fs.now)
+            ns = int(round(m * 1e9))
+            size = len(f.content) if f.writing else len(fs.files.get(f.path, b""))
+            return _os.stat_result((_stat.S_IFREG | 0o644, (__import__('zlib').crc32(f.path.encode('utf-8', 'surrogateescape')) & 0xFFFFFF), 1, 1, 0, 0, size, int(m), int(m), int(m), m, m, m, ns, ns, ns))
+
         def sim_lseek(fd, off, whence):
             f = fs.fds.get(fd)
             return real["lseek"](fd, off, whence) if f is None else f.seek(off, whence)
 
         for n, fn in (("open", sim_open), ("fdopen", sim_fdopen), ("write", sim_write), ("read", sim_read), ("close", sim_close),
-                      ("fsync", sim_fsync), ("ftruncate", sim_ftruncate), ("lseek", sim_lseek)):
+                      ("fsync", sim_fsync), ("ftruncate", sim_ftruncate), ("lseek", sim_lseek), ("fstat", sim_fstat)):
             patcher.set(_os, n, fn)
 
     def install_rename(self, patcher):
@@ -992,7 +1126,7 @@ class SimFS:
             if rel in fs.files:
                 m = fs.mtime.get(rel, fs.now)
                 ns = int(round(m * 1e9))
-                return _os.stat_result((_stat.S_IFREG | 0o644, hash(rel) & 0xFFFFFF, 1, 1, 0, 0, len(fs.files[rel]), int(m), int(m), int(m),
+                return _os.stat_result((_stat.S_IFREG | 0o644, (__import__('zlib').crc32(rel.encode('utf-8', 'surrogateescape')) & 0xFFFFFF), 1, 1, 0, 0, len(fs.files[rel]), int(m), int(m), int(m),
                                         m, m, m, ns, ns, ns))
             if rel in fs.dirs:
                 return _os.stat_result((_stat.S_IFDIR | 0o755, 1, 1, 1, 0, 0, 0, 0, 0, 0))
